@@ -30,8 +30,6 @@ CLAIMED = {
          "The spans the analyzer records for usages (UTF-16 columns, string-literal forms) need analyze_file on non-trivial ASTs and are out of solver reach (harnesses kept under props=ATTEMPT; the defects they show natively are listed in DESIGN.md §9.4); Range construction in handlers is outside." + COMMON_NOTE),
  "C16": ("DESIGN.md §4 C16, §9", "Cycle and scope-mismatch diagnostics of the real detect_fixture_cycles / detect_scope_mismatches_in_file against a reference dependency graph whose edges are resolved per depending file; all 25 scope pairs and definition lines symbolic per graph arm; both registration orders.",
          "<= 3 fixture names, <= 3 definitions per arm (std HashMap/HashSet cost); one fixed hash seed." + COMMON_NOTE),
- "C17": ("DESIGN.md §4 C17, §9", "Quick-fix half: get_function_param_insertion_info + the edit the completion provider derives from it on signature templates (no parameter, one parameter, method, async + annotation, multi-line) compared with the expected edited text; panic-freedom and position sanity of the insertion scan over a one-line file of 5 symbolic ASCII bytes (6-symbol alphabet) and symbolic function_line.",
-         "The undeclared-fixture scan itself (warning half) runs over function-body ASTs and is out of solver reach (harness kept under props=ATTEMPT); the code-action handler's own text search is outside." + COMMON_NOTE),
  "C18": ("DESIGN.md §4 C18, §9", "Offered set: for each world arm the per-file view get_available_fixtures has at most one entry per name and that entry is the definition navigation resolves to (shared with C05; symbolic lines, import bit, third-party-is-plugin flag); completion context of the incomplete documents produced while typing (text fallback of get_completion_context): `def test_x(`, a fixture signature after a comma, `@pytest.mark.usefixtures(`, a non-test helper.",
          "get_completion_context on VALID documents walks the AST and is out of solver reach (harnesses kept under props=ATTEMPT); filter/sort helpers in src/providers/completion.rs (binary crate) are not encoded." + COMMON_NOTE),
  "C20": ("DESIGN.md §4 C20, §9", "Library half: get_unused_fixtures lists D iff D is not third-party, not autouse and find_references_for_definition(D) is empty, each (file, name) once, sorted — decided per world arm with autouse flags symbolic.",
@@ -43,6 +41,7 @@ try:
 except Exception:
     READY = set()
 NOT_APPLICABLE = {
+ "C17": "warning half: scan_function_body_for_undeclared_fixtures walks function-body ASTs (data-carrying enums = non-constant unions for CBMC, see C03) and is out of reach; quick-fix half: get_function_param_insertion_info is text search (`lines()`, `find(\"):\")`, `find('(')`, slicing) whose propositional encoding exceeded 10 GB even on five concrete signature templates executed in sequence, and ran past 15 min on a 5-byte symbolic line — measured, harnesses kept under props=ATTEMPT (natively they confirm the insertion defects listed in DESIGN.md §9.4)",
  "C03": "the property is about what the analyzer extracts from a parsed file; the rustpython AST is a tree of data-carrying enums (unions with pointers for CBMC): every node read is non-constant, the analyzer explores every statement/expression kind at every node and the recursive drop glue of the tree alone does not finish — measured: analyze_file on a 3-line fixture file > 14 min / > 8 GB, on an empty or comment-only file 40 s. Only trivial ASTs are within reach, which says nothing about extraction (harnesses kept under props=ATTEMPT, see DESIGN.md §9.2)",
  "C09": "needs interleavings at map-operation granularity of two running analyses; Kani/CBMC execute one thread and no thread-aware solver for Rust is installed; re-sequencing cut-up pieces by hand would be a model, not the real code",
  "C13": "the decision logic is written inline in the WalkDir loop of scan_workspace_with_excludes (FFI directory walking, cannot be stubbed at the needed granularity); the only callable kernel does not decide the property",
